@@ -8,7 +8,8 @@ marker values, and the real parse()+emit() must either reject it or produce exac
 fully explicit call (every parameter written out with the value Python binds, defaults included).  Each shape is
 also rendered in re-spellings Python's tokenizer treats alike (blanks around the `=` of a keyword argument, around
 commas and inside the parentheses: 40 spellings, all of them for the first six keyword shapes of a signature, one per
-shape round-robin for the rest).
+shape round-robin for the rest).  Per method, two calls with different marker values in one block must give the
+firmware of the first call followed by the firmware of the second (a call's binding does not depend on its neighbours).
 """
 from __future__ import annotations
 
@@ -158,6 +159,43 @@ def canonical(params, shape, values):
     return ", ".join(out)
 
 
+ALT_VALUES = {
+    "value": "0.75", "duration_ms": "70", "times": "3", "step": "32", "delay_ms": "45", "pattern": "[0, 1, 1, 0]", "red": "44", "green": "55",
+    "blue": "66", "steps": "2", "angle": "120", "pulse": "1200", "speed": "-0.25", "target_speed": "0.75", "frequency": "660",
+    "on_ms": "15", "off_ms": "25", "start_hz": "500", "end_hz": "200", "name": '"error"', "tempo": "90", "col": "2", "row": "1",
+    "text": '"yo"', "align": '"center"', "top": '"U"', "bottom": '"D"', "level": "12", "slot": "3", "bitmap": "[8, 7, 6, 5, 4, 3, 2, 1]",
+    "max_value": "20", "width": "5", "style": '"dot"', "label": '"M"', "speed_ms": "40", "on": "True",
+}
+
+
+def _loop_body(cpp):
+    i = cpp.find("void loop() {")
+    if i < 0:
+        return ""
+    body = cpp[i + len("void loop() {"):]
+    return body[:body.rfind("}")]
+
+
+def _canon(bodies):
+    """Blank lines dropped; numbered helper identifiers renamed in order of first appearance.  `bodies` is a list of
+    texts that are renamed one after the other: each starts with a fresh name table (the same identifier in two
+    separately emitted bodies is two different objects) while the numbering runs on."""
+    import re
+    out = []
+    count = [0]
+    for text in bodies:
+        seen = {}
+
+        def ren(m):
+            if m.group(0) not in seen:
+                seen[m.group(0)] = f"{m.group(1)}#{count[0]}"
+                count[0] += 1
+            return seen[m.group(0)]
+        text = "\n".join(ln.rstrip() for ln in _norm(text).split("\n") if ln.strip())
+        out.append(re.sub(r"\b(__redu_[A-Za-z_]*?|__tmp_[A-Za-z_]*?)(\d+)\b", ren, text))
+    return "\n".join(out)
+
+
 def transpile_or_reject(src):
     try:
         return "ok", lower.transpile(src)
@@ -253,6 +291,31 @@ def method_obligation(item):
                           + " | ".join(d))[:400]
             res.witness = {"call": args, "canonical": canon, "class": f"{cls_name}.{meth}"}
             return res
+    # compositionality: two calls of the method in one block (different values) must give the firmware of the first
+    # call followed by the firmware of the second - a call's binding must not depend on its neighbours
+    if kind in ("method", "core") and shapes and meth != "animate":      # (animation ticks are hoisted to the top of loop())
+        v2 = dict(values)
+        for k, v in list(v2.items()):
+            v2[k] = ALT_VALUES.get(k, v)
+        full = [(p.name, "kw" if p.kind == p.KEYWORD_ONLY else "pos") for p in params]
+        a1, a2 = render(full, False, values), render(full, False, v2)
+        if a1 != a2:
+            one = script(a1)
+            two_src = one.rstrip("\n") + "\n" + [ln for ln in script(a2).split("\n") if ln.strip()][-1] + "\n"
+            st1, o1 = transpile_or_reject(script(a1))
+            st2, o2 = transpile_or_reject(script(a2))
+            st12, o12 = transpile_or_reject(two_src)
+            if st1 == st2 == st12 == "ok":
+                res.queries += 3
+                b1, b2, b12 = _loop_body(o1), _loop_body(o2), _loop_body(o12)
+                if _canon([b12]) != _canon([b1, b2]):
+                    import difflib
+                    d = [x for x in difflib.unified_diff(_canon([b1, b2]).split("\n"), _canon([b12]).split("\n"), lineterm="", n=0)][2:8]
+                    res.verdict = "violation"
+                    res.detail = (f"{cls_name}.{meth}({a1}) followed by {cls_name}.{meth}({a2}) in one block is not bound like the "
+                                  "two calls alone: " + " | ".join(d))[:400]
+                    res.witness = {"call": a1 + " ; " + a2, "class": f"{cls_name}.{meth}/two-calls"}
+                    return res
     res.sample["accepted_shapes"] = n_acc
     if n_acc == 0:
         res.verdict, res.detail = "inconclusive", "vacuous: the transpiler accepted none of the valid call shapes"
